@@ -178,7 +178,7 @@ class Selection:
 BAD_MATCHERS = ['wl_surface(', '[wl_surface', 'a.b.c', 'a:b:c', 'wl_surface.commit(x) y', 'wl surface', 'wl_surface$',
                 'x.y(z', '(', '[', 'a.b(c))d', 'A:B:c.d', 'wl_pointer(x=1', 'foo@bar@baz', 'x(y)z',
                 # letters and digits outside ASCII where an id, a generation letter or a name is expected
-                '7é', '#9ß', '.attach(buffer=3ñ)', 'wl_pointer ! 7Ω', '7\u212a', 'é', 'wl_é', '12①', 'wl_surface@5é']
+                '.foo("a"b")', '("x"y")', '.motion("a"")', '7é', '#9ß', '.attach(buffer=3ñ)', 'wl_pointer ! 7Ω', '7\u212a', 'é', 'wl_é', '12①', 'wl_surface@5é']
 
 
 def gen_commands(rng, voc, n, weights, spell_gdb=False):
@@ -278,6 +278,21 @@ def revisit_flavour(rng, intents, names):
     out = list(intents)
     for pos, blk in reversed(list(zip(cut, blocks))):
         out[pos:pos] = blk
+    return out
+
+
+def twin_sweep(rng, intents, names):
+    """after the last message: look at every connection in turn and list it, with the same (absent or explicit) matcher and
+    cap each time. Used with twin connections (identical histories, so equally many messages): whatever is remembered from
+    one listing must not answer the next one"""
+    variant = rng.choice([('list', None, None), ('list', None, None), ('list *', {'kind': 'star'}, None), ('list ~ 3', None, 3)])
+    out = list(intents)
+    order = sorted(names)
+    if rng.random() < 0.5:
+        order.reverse()
+    for nm in order:
+        out.append(['cmd', 'connection ' + nm, {'t': 'connection', 'to': nm}])
+        out.append(['cmd', variant[0], {'t': 'list', 'm': variant[1], 'cap': variant[2]}])
     return out
 
 
